@@ -54,6 +54,10 @@ where
 
 /// Return system unix nano timestamp
 pub fn timestamp() -> i64 {
+    #[cfg(feature = "verif")]
+    if let Some(t) = crate::verif::next_tstamp() {
+        return t;
+    }
     chrono::Local::now().timestamp_nanos()
 }
 
